@@ -224,6 +224,7 @@ CHECKS = {
         "level": "exploration",
         "tests": [
             {"pkg": "clusterx", "run": "^TestC03_Cluster$", "quick": 160, "thorough": 4200, "shards": {"quick": 5, "thorough": 14}, "shrinktime": "20s"},
+            {"pkg": "clusterx", "run": "^TestC03_Follower$", "quick": 600, "thorough": 20000, "shards": {"quick": 4, "thorough": 14}, "shrinktime": "20s"},
         ],
         "floors": {"election_triggered": 0.3},
         "rule": "generated programs of 8-30 steps over a cluster of 3 or 5 real storage nodes (+0-1 spare) and the real coordinator ShardController, all in one process and connected by a harness-owned wire: client writes (put / conditional put / delete / delete-range, each with a unique marker record) and reads sent to the node the client believes to be leader (current, remembered or arbitrary), bursts of 2-4 concurrent operations, isolate / cut link / heal, graceful node restart, node stop/start (minority), 'node unavailable' notifications to the coordinator, coordinator restart from the stored metadata, holding a node's next NewTerm response, node swap to the spare, settle pauses; WAL segments of 1 KiB..64 KiB so rollovers and truncations cross segments. At the end everything is healed and restarted, a fresh coordinator elects, a final write is issued and the ensemble catches up. Every message, metadata store and client invoke/return is recorded in one ordered history. Oracle (C03): at the instant an Ack leaves a follower (observed on the wire) its durable log head (or the commit offset of its database after a snapshot installation) covers the offset and the stored entry equals what the leader put on that stream (or holds in its log); at the end any two replicas agree on every entry at or below either one's commit offset and replicas with equal commit offset have identical databases. Non-trivial: as C01.",
@@ -233,6 +234,7 @@ CHECKS = {
         "level": "exploration",
         "tests": [
             {"pkg": "clusterx", "run": "^TestC04_Cluster$", "quick": 160, "thorough": 4200, "shards": {"quick": 5, "thorough": 14}, "shrinktime": "20s"},
+            {"pkg": "clusterx", "run": "^TestC04_Follower$", "quick": 600, "thorough": 20000, "shards": {"quick": 4, "thorough": 14}, "shrinktime": "20s"},
         ],
         "floors": {"election_triggered": 0.3},
         "rule": "generated programs of 8-30 steps over a cluster of 3 or 5 real storage nodes (+0-1 spare) and the real coordinator ShardController, all in one process and connected by a harness-owned wire: client writes (put / conditional put / delete / delete-range, each with a unique marker record) and reads sent to the node the client believes to be leader (current, remembered or arbitrary), bursts of 2-4 concurrent operations, isolate / cut link / heal, graceful node restart, node stop/start (minority), 'node unavailable' notifications to the coordinator, coordinator restart from the stored metadata, holding a node's next NewTerm response, node swap to the spare, settle pauses; WAL segments of 1 KiB..64 KiB so rollovers and truncations cross segments. At the end everything is healed and restarted, a fresh coordinator elects, a final write is issued and the ensemble catches up. Every message, metadata store and client invoke/return is recorded in one ordered history. Oracle (C04): after a node answered NewTerm(T) with head h its WAL head stays at h until an Append / Truncate / snapshot / BecomeLeader of a term >= T is delivered to it (polled after every step); it sends no Ack on a stream of a lower term (acks rejected by the torn-down stream do not count); no write or read invoked at it afterwards is served under a lower term. Non-trivial: as C01.",
@@ -265,5 +267,45 @@ CHECKS = {
                 "Non-trivial: >=2 batches on one shard with a failure in one, or a multi-shard read with >=1 failing shard.",
         "assumptions": ["bounded waits: a call that does not complete within the bound makes the case inconclusive",
                         "a streaming call counts as completed once it delivered an error item"],
+    },
+    "C18": {
+        "level": "exploration",
+        "tests": [
+            {"pkg": "coordx", "run": "^TestC18_GenerateShards$", "quick": 20000, "thorough": 400000},
+            {"pkg": "coordx", "run": "^TestC18_ConfigHistory$", "quick": 6000, "thorough": 120000},
+            {"pkg": "coordx", "run": "^TestC18_Coordinator$", "quick": 240, "thorough": 4000},
+            {"pkg": "clientx", "run": "^TestC18_ClientRouting$", "quick": 400, "thorough": 8000},
+        ],
+        "rule": "(a) sharding.GenerateShards(base, n) for n in 1..4096 (some up to 65536): ranges sorted by min contiguous 0..2^32-1, no overlap, "
+                "ids base..base+n-1; (b) histories of 1-12 cluster configs (add/remove namespaces with name reuse, shard counts 1-64, "
+                "rf 1-5 <= #servers, growing/shrinking server lists, optional strict anti-affinity) threaded through "
+                "utils.ApplyClusterChanges with the real ensemble selector, with deletion of Deleting shards progressing between "
+                "steps: per configured namespace the active shards partition 0..2^32-1 (or the namespace was refused as a whole), "
+                "shard ids unique cluster-wide and never reused over the history, ShardIdGenerator monotone; (c) the same kind of "
+                "history through a real coordinator.NewCoordinator (memory metadata, instantly answering stub nodes): published "
+                "assignments checked the same way; (d) the real client library against fake servers: for generated assignments "
+                "(1-64 shards) and 200 keys / partition keys per case the shard that receives each Put/Get is the one whose range "
+                "contains the repository's 32-bit xxh3 hash of the key, also after a second, different assignment is pushed, "
+                "with operations pending across the switch; no panic. Non-trivial: a removal followed by an addition, or a shard "
+                "count that does not divide 2^32 (a-c); an assignment switch with pending operations (d).",
+        "assumptions": ["rf <= number of servers (nothing validates configs; outside is not asserted)",
+                        "coordinator-level waits are bounded; a case that does not quiesce within the bound is inconclusive (counted)"],
+    },
+    "C19": {
+        "level": "exploration",
+        "tests": [
+            {"pkg": "coordx", "run": "^TestC19_Selector$", "quick": 60000, "thorough": 1500000},
+            {"pkg": "coordx", "run": "^TestC19_Balancer$", "quick": 24000, "thorough": 400000},
+        ],
+        "rule": "1-12 servers with labels from a 3x3 vocabulary (some servers unlabeled), policies in {none, one strict rule with 1-2 labels, "
+                "two strict rules}, rf 1-5 <= #servers, existing placements and load skew. (1) ensemble.NewSelector: the result is rf "
+                "pairwise-distinct ids of current servers such that for every strict rule no two members agree on all of its labels "
+                "(weakest reading), or an error; with no policy it must succeed. (2) real balancer.NewLoadBalancer rounds after "
+                "removing 1-2 servers or adding empty ones: every SwapNodeAction moves one member, From is in the shard's ensemble as "
+                "updated by the earlier actions of the round, To is a current server not already in it; after the round every "
+                "ensemble has rf distinct members and satisfies the strict rules; the round ends. Non-trivial: a strict rule that "
+                "excludes an otherwise eligible server, or a round with >=2 actions on one shard.",
+        "assumptions": ["swaps are applied with a model of the shard controller's replaceInList",
+                        "a round that does not end within the harness watchdog is inconclusive unless a panic was observed"],
     },
 }
